@@ -81,7 +81,11 @@ def gen_case(rng):
             spec["proj"] = aggs
         if rng.random() < 0.25:
             spec["having"] = [[rng.choice([">", "<", "="]), ["agg", "COUNT", False, v("v"), None], c(Literal(rng.choice([0, 1, 2])))]]
-        if rng.random() < 0.3 and grouped:
+        elif grouped and spec["groupby"][0][1] is None and rng.random() < 0.25:
+            # HAVING on the group key alone (no aggregate in it), with the key projected or not
+            spec["having"] = [rng.choice([["!=", v("s"), c(URIRef("urn:e:a"))], ["=", v("s"), c(URIRef("urn:e:b"))], ["bound", "s"]])]
+            if rng.random() < 0.6: spec["proj"] = aggs
+        if rng.random() < 0.3 and grouped and isinstance(spec["proj"][0], str):
             spec["orderby"] = [[v(spec["proj"][0]), rng.random() < 0.5]]
     if rng.random() < 0.4:
         spec["limit"] = rng.randint(0, 4)
